@@ -2133,6 +2133,26 @@ impl<'s> Semantics<'s> {
     pub fn mov(&self, control_flow_graph: &mut ControlFlowGraph) -> Result<(), Error> {
         let detail = self.details()?;
 
+        // Loading a segment register takes a 16-bit selector, but the segment
+        // scalars model the segment *base*, which depends on the descriptor
+        // tables. Assigning the selector to the base would be ill-sorted.
+        if detail.operands[0].type_ == x86_op_type::X86_OP_REG
+            && matches!(
+                detail.operands[0].reg(),
+                x86_reg::X86_REG_CS
+                    | x86_reg::X86_REG_DS
+                    | x86_reg::X86_REG_ES
+                    | x86_reg::X86_REG_FS
+                    | x86_reg::X86_REG_GS
+                    | x86_reg::X86_REG_SS
+            )
+        {
+            return Err(Error::Custom(format!(
+                "Unhandled mov to segment register at 0x{:x}",
+                self.instruction().address
+            )));
+        }
+
         let block_index = {
             let block = control_flow_graph.new_block()?;
 
